@@ -302,7 +302,11 @@ def _cells_of(res, mode):
 
 
 def _edit_cells(cells):
+    """Edit every python container reachable from the cells, innermost first (a keysound list holds dicts: a deep copy
+    owns those too; a per-cell shallow copy does not - seeded/C14-adv1)."""
     for v in cells:
+        inner = list(v.values()) if isinstance(v, dict) else list(v)
+        _edit_cells([x for x in inner if isinstance(x, (list, dict))])
         if isinstance(v, list):
             v.append("__c14__")
         else:
